@@ -563,6 +563,11 @@ pub fn chain_cases() -> Vec<RsCase> {
     let mut out = vec![];
     let fam: Vec<(&str, &str, Vec<Value>, Vec<Value>)> = vec![
         ("and", "or", vec![Value::Bool(true), Value::Bool(false)], vec![Value::None, Value::Int(1)]),
+        // chains in which nothing short-circuits before the special operand
+        ("and", "and", vec![Value::Bool(true)], vec![Value::None, Value::Int(7), s("yes"), Value::Bool(false)]),
+        ("or", "or", vec![Value::Bool(false)], vec![Value::None, Value::Float(2.5), s("yes"), Value::Bool(true)]),
+        ("mult", "mult", vec![Value::Int(1)], vec![Value::Float(2.5), Value::None, d(21, 2), s("x")]),
+        ("add", "sub", vec![Value::Int(0)], vec![Value::Float(2.5), s("x"), d(5, 0)]),
         ("or", "and", vec![Value::Bool(false), Value::Bool(true)], vec![Value::None, s("x")]),
         ("add", "sub", vec![Value::Int(3), Value::Int(-7)], vec![Value::None, Value::Int(i128::MAX), s("x"), Value::Float(1.0)]),
         ("mult", "div", vec![Value::Int(2), Value::Int(3)], vec![Value::Int(0), Value::None, Value::Int(i128::MAX)]),
